@@ -331,4 +331,117 @@ theorem revert_ok_state (m2 : VLog) (cp : Nat) (hok : (m2.step (.revert cp)).2 =
       · simp [h, h'] at hok
     · simp [h] at hok
 
+/-! ## the remembered checkpoint (`guard`) makes every write safe -/
+
+theorem guard_write (s : Spec) (k : Bytes) (v : Option Bytes) (ops : List Nat) : (s.write k v ops).1.guard = s.guard := by
+  have hcore : (s.writeCore k v ops).guard = s.guard := by cases v <;> rfl
+  simp only [Spec.write]
+  split
+  · rfl
+  · split
+    · rfl
+    · split <;> exact hcore
+
+theorem guard_step {mark : Nat} {pre : List Nat} {old : Bytes → List Version} {s : Spec} (hf : Frame mark pre old s)
+    (hg : mark ≤ s.guard) (op : Op) (ha : Allowed mark pre s op) : mark ≤ (s.step op).1.guard := by
+  obtain ⟨ext, hm, hext⟩ := hf.marks
+  cases op with
+  | set k v ops =>
+    simp only [Spec.step]
+    split
+    · exact hg
+    · rw [guard_write]; exact hg
+  | del k ops => simp only [Spec.step]; rw [guard_write]; exact hg
+  | upd k ops => simp only [Spec.step]; rw [guard_write]; exact hg
+  | get k => simp only [Spec.step]; split <;> (try split) <;> exact hg
+  | getFlags k => simp only [Spec.step]; split <;> (try split) <;> exact hg
+  | iter lo hi rev wf => exact hg
+  | snapGet k => simp only [Spec.step]; split <;> (try split) <;> exact hg
+  | snapIter lo hi rev => exact hg
+  | len => exact hg
+  | size => exact hg
+  | dirty => exact hg
+  | staging => exact hg
+  | release h =>
+    simp only [Spec.step]
+    split
+    · exact hg
+    · split <;> exact hg
+  | cleanup h =>
+    simp only [Spec.step]
+    by_cases h0 : h = 0
+    · rw [if_pos h0]; exact hg
+    · rw [if_neg h0]
+      by_cases h1 : h > s.marks.length
+      · rw [if_pos h1]; exact hg
+      · rw [if_neg h1]
+        by_cases h2 : h < s.marks.length
+        · rw [if_pos h2]; exact hg
+        · rw [if_neg h2]
+          have heq : h = s.marks.length := by omega
+          have hlen : pre.length < s.marks.length := by
+            rcases ha with h | h | h
+            · exact absurd h h0
+            · exact absurd heq h
+            · exact h
+          have hne : ext ≠ [] := by
+            intro he; rw [hm, he] at hlen; simp at hlen
+          cases hl : s.marks.getLast? with
+          | none => exact hg
+          | some mk =>
+            have hmk : mark ≤ mk := by
+              rw [hm, getLast_append_ne_nil pre ext hne] at hl
+              exact hext mk (List.mem_of_getLast? hl)
+            show mark ≤ min s.guard mk
+            omega
+  | checkpoint => exact hf.clock
+  | revert cp =>
+    simp only [Spec.step]
+    cases hc : (decide (cp ≤ s.clock) && (match s.marks.getLast? with | some m => decide (m ≤ cp) | none => true)) with
+    | true =>
+      rw [if_pos rfl]
+      have hcp : mark ≤ cp := ha hc
+      show mark ≤ min s.guard cp
+      omega
+    | false => rw [if_neg (by simp)]; exact hg
+  | inspect h => simp only [Spec.step]; split <;> (try split) <;> exact hg
+  | hist k p => simp only [Spec.step]; split <;> (try split) <;> (try split) <;> exact hg
+  | setLimits e b => exact hg
+
+/-- once the checkpoint is remembered, calls that neither pop the stack below it nor revert below it are `Allowed` -/
+theorem allowed_of_guard {mark : Nat} {pre : List Nat} {s : Spec} (hg : mark ≤ s.guard) (op : Op)
+    (hk : match op with
+      | .release h => h = 0 ∨ h ≠ s.marks.length ∨ pre.length < s.marks.length
+      | .cleanup h => h = 0 ∨ h ≠ s.marks.length ∨ pre.length < s.marks.length
+      | .revert c => mark ≤ c
+      | _ => True) : Allowed mark pre s op := by
+  cases op with
+  | release h => exact hk
+  | cleanup h => exact hk
+  | set k v ops =>
+    simp only [Allowed, SafeSwap]
+    split
+    · intro hbad
+      have h1 := hbad.1
+      have h2 := hbad.2.2.1
+      omega
+    · trivial
+  | revert cp => intro _; exact hk
+  | _ => trivial
+
+theorem respects_of_guard {mark : Nat} {pre : List Nat} {old : Bytes → List Version} :
+    ∀ (ops : List Op) (s : Spec), Frame mark pre old s → mark ≤ s.guard → KeepsStage pre.length s ops →
+      NoRevertBelow mark ops → Respects mark pre s ops := by
+  intro ops
+  induction ops with
+  | nil => intro _ _ _ _ _; trivial
+  | cons op rest ih =>
+    intro s hf hg hk hn
+    have ha : Allowed mark pre s op := by
+      apply allowed_of_guard hg
+      have h1 := hk.1
+      have h2 := hn op (by simp)
+      cases op <;> simp_all
+    exact ⟨ha, ih _ (frame_step hf op ha) (guard_step hf hg op ha) hk.2 (fun o ho => hn o (by simp [ho]))⟩
+
 end CGV.MemBuf
